@@ -72,7 +72,7 @@ def judge(case):
     q, use_handler = case["q"], case["handler"]
     sent = [apply(f, damage[i]) if i in damage else f for i, f in enumerate(frames)]
     for i in damage:
-        assert sent[i] != frames[i] and sent[i][:3] == frames[i][:3]
+        core.require(sent[i] != frames[i] and sent[i][:3] == frames[i][:3], "C05 damage pattern")
         if pinned.crc24q_table(sent[i]) == 0:
             raise core.Broken("damage pattern is not detectable by the reference CRC")
     good = [f for i, f in enumerate(frames) if i not in damage]
@@ -172,6 +172,20 @@ def cases(tier):
                     for q, h in modes:
                         out.append({"frames": frames, "damage": dict(zip(sub, combo)),
                                     "q": q, "handler": h})
+    # rebroadcast (byte-identical) frames: a damaged copy of a frame the same reader has already
+    # delivered must still be rejected (static messages such as 1005/1033 repeat verbatim)
+    a, b = base_frames(2)
+    c19 = pinned.frame(items.frames()["F19"]["payload"])
+    for frames in ([a, a], [a, b, a], [a, a, b], [c19, c19], [c19, a, c19, c19]):
+        for i in range(1, len(frames)):
+            if frames[i] not in frames[:i]:
+                continue
+            nb = (len(frames[i]) - 3) * 8
+            for kind, mask in patterns(nb):
+                if kind not in ("bit", "adj", "ends") and not (kind.startswith("burst") and tier == "thorough"):
+                    continue
+                for q, h in modes[:4]:
+                    out.append({"frames": frames, "damage": {i: mask}, "q": q, "handler": h})
     return out
 
 
